@@ -403,6 +403,31 @@ func after(ms []mark, seq uint64) []mark {
 	return out
 }
 
+// sure returns the completion marks of notifications that certainly found the
+// call registered: they began after event seq (the first transmission, which
+// the engine performs after registering the ack and result callbacks).
+func sure(begin, done []mark, seq uint64) []mark {
+	var out []mark
+	for i, b := range begin {
+		if b.seq > seq && i < len(done) {
+			out = append(out, done[i])
+		}
+	}
+	return out
+}
+
+// maybe returns the begin marks of notifications that may have taken effect on
+// a call started at event seq: they had not completed before it started.
+func maybe(begin, done []mark, seq uint64) []mark {
+	var out []mark
+	for i, b := range begin {
+		if i >= len(done) || done[i].seq > seq {
+			out = append(out, b)
+		}
+	}
+	return out
+}
+
 func firstBefore(ms []mark, seq uint64) bool {
 	for _, m := range ms {
 		if m.seq < seq {
@@ -521,12 +546,12 @@ func (w *world) judgeC25(o *simrt.Outcome, c *callRec) {
 		// never sent again once an ack/result was received: compare in
 		// simulated time (same-instant races between the retry timer and the
 		// notification are inherent and tolerated).
-		for _, m := range after(c.ackDone, s0.beginSeq) {
+		for _, m := range sure(c.ackBegin, c.ackDone, s0.beginSeq) {
 			if sr.beginT > m.t {
 				o.AddViolation("C25", "C25.send-after-ack", "send-after-ack", "call %d: transmission %d at %v after its ack was delivered at %v", c.id, i+1, sr.beginT, m.t)
 			}
 		}
-		for _, m := range after(c.resDone, s0.beginSeq) {
+		for _, m := range sure(c.resBegin, c.resDone, s0.beginSeq) {
 			if sr.beginT > m.t {
 				o.AddViolation("C25", "C25.send-after-result", "send-after-result", "call %d: transmission %d at %v after its result/error was delivered at %v", c.id, i+1, sr.beginT, m.t)
 			}
@@ -544,10 +569,10 @@ func (w *world) judgeC25(o *simrt.Outcome, c *callRec) {
 			stopT = t
 		}
 	}
-	for _, m := range after(c.ackBegin, s0.beginSeq) {
+	for _, m := range maybe(c.ackBegin, c.ackDone, c.startSeq) {
 		upd(m.t)
 	}
-	for _, m := range after(c.resBegin, s0.beginSeq) {
+	for _, m := range maybe(c.resBegin, c.resDone, c.startSeq) {
 		upd(m.t)
 	}
 	if c.cancelled {
@@ -632,8 +657,17 @@ func (w *world) judgeC26(o *simrt.Outcome, c *callRec) {
 		}
 		return
 	}
-	// pending (or finished) when ForceClose began
-	if w.closed && (!c.returned || c.ret.seq > w.closeEnd.seq) {
+	// pending (or finished) when ForceClose began. A call the harness had
+	// started but the engine had not yet transmitted may legitimately be
+	// refused after the close; it must still return (checked at the end).
+	if w.closed && !c.returned {
+		o.AddViolation("C26", "C26.stranded", "stranded-forever", "call %d never returned although ForceClose completed (#%d)", c.id, w.closeEnd.seq)
+		return
+	}
+	transmitted := len(c.sends) > 0 && c.sends[0].beginSeq < w.closeBeg.seq
+	// (compared in simulated time: the harness logs the return after Do
+	// returned, possibly after ForceClose's own return was logged)
+	if w.closed && transmitted && c.ret.t > w.closeEnd.t {
 		o.AddViolation("C26", "C26.stranded", "stranded", "call %d was pending when ForceClose began (#%d) and had not returned when ForceClose returned (#%d)", c.id, w.closeBeg.seq, w.closeEnd.seq)
 		return
 	}
@@ -649,7 +683,7 @@ func (w *world) judgeC26(o *simrt.Outcome, c *callRec) {
 		return
 	}
 	first := c.sends[0].beginSeq
-	resAny := len(after(c.resBegin, first)) > 0
+	resAny := len(maybe(c.resBegin, c.resDone, c.startSeq)) > 0
 	if resAny || c.ctxDone || c.retErr == nil {
 		return
 	}
@@ -661,8 +695,8 @@ func (w *world) judgeC26(o *simrt.Outcome, c *callRec) {
 			return // a transmission raced with the close (timer and close at the same instant)
 		}
 	}
-	ackedBefore := firstBefore(after(c.ackDone, first), w.closeBeg.seq)
-	ackAny := len(after(c.ackBegin, first)) > 0
+	ackedBefore := firstBefore(sure(c.ackBegin, c.ackDone, first), w.closeBeg.seq)
+	ackAny := len(maybe(c.ackBegin, c.ackDone, c.startSeq)) > 0
 	p, tg := retryable(c.retErr)
 	switch {
 	case ackedBefore:
